@@ -212,6 +212,18 @@ def _job(job):
                 r["r"] = cd.pe(v) if not isinstance(v, str) else v
             else:
                 r["r"] = [cd.pe(v[0]), cd.pe(v[1])] if not isinstance(v, str) else v
+        elif op == "twadd":
+            tm = twist_module(mname, c["f"], c["f12"])
+            cd12 = Codec(fam, c["f12"])
+            P, Q, n = it
+            r["P"], r["Q"], r["n"] = P, Q if Q is not None else [], bits(n) if n else []
+            r["c12"] = CIDX[c["c12"]]
+            a = cd.point(P)
+            if n:
+                r["r"] = cd12.proj(_safe(lambda: cm.multiply(tm.twist(a), n)))
+            else:
+                b = cd.point(Q)
+                r["r"] = cd12.proj(_safe(lambda: cm.add(tm.twist(a), tm.twist(b))))
         elif op == "twist":
             tm = twist_module(mname, c["f"], c["f12"])
             cd12 = Codec(fam, c["f12"])
@@ -360,10 +372,16 @@ def build_tables(tier, seed, log=lambda *a: None, mods=None, only_ops=None):
             if c.get("f12"):
                 tw = allpts if not quick or len(pts) <= 70 else ["inf"] + rng.sample(pts, 40)
                 add(mname, cname, "twist", [reps(R, 1)[-1] for R in tw], 1 if tw is allpts else 0)
+                fin = [R for R in pts]
+                prs = [(rng.choice(fin), rng.choice(fin)) for _ in range(10 if quick else 120)]
+                prs += [(fin[0], fin[0]), (fin[1], (fin[1][0], [(-v) % p for v in fin[1][1]]))]      # P + P, P + (-P)
+                items = [(reps(P, 1)[-1], reps(Q, 1)[-1], 0) for (P, Q) in prs]
+                items += [(reps(rng.choice(fin), 1)[-1], None, n) for n in (2, 3, 5, rng.randrange(6, 200))]
+                add(mname, cname, "twadd", items)
     work = []
     for ji, (job, arity) in enumerate(jobs):
         mname, cname, op, items = job
-        step = 60 if op == "twist" else 2000
+        step = 60 if op == "twist" else (8 if op == "twadd" else 2000)
         for k in range(0, len(items), step):
             work.append((ji, (mname, cname, op, items[k:k + step])))
     log(f"curve tables: {len(jobs)} jobs, {sum(len(j[0][3]) for j in jobs)} rows to produce")
